@@ -65,9 +65,18 @@ def rand_value(rng, v, prev, kind):
     if v.kind == "int":
         return rng.choice([0, 1, -1, 2147483647, -2147483648, rng.randrange(-2 ** 31, 2 ** 31), rng.randrange(-200, 200)])
     if v.kind == "real":
-        return rng.choice(REALS + [rng.uniform(-1e6, 1e6)])
+        if prev is not None and prev == 0.0 and rng.random() < 0.6:
+            return -prev           # 0.0 <-> -0.0: two different values that compare equal as numbers
+        return rng.choice(REALS + [0.0, rng.uniform(-1e6, 1e6)])
     if v.kind == "enum":
         return rng.randrange(len(v.literals))
+    if v.extra.get("bin_str"):
+        # FST only: values that are not valid UTF-8 (reported with U+FFFD replacement characters), valid multi-byte
+        # characters, and values repeated unchanged (within and across value-change blocks)
+        if prev is not None and rng.random() < 0.35:
+            return prev
+        return b"".join(rng.choice([b"a", b"Z", b"0", b" ", b"\xc3\xa9", b"\xe9", b"\xff", b"\xe2\x82\xac", b"caf\xe9"])
+                        for _ in range(rng.choice([1, 2, 4])))
     return bytes(rng.choice(b"abcXYZ019 _-") for _ in range(rng.choice([0, 1, 3, 12])))
 
 
@@ -210,6 +219,8 @@ def rand_fst(rng):
         elif r < 0.3:
             v = fg.Var(fresh(rng, used), "real", vartype=rng.choice(REAL_CODES), **extra)
         elif r < 0.4:
+            if rng.random() < 0.5:
+                extra["bin_str"] = True
             v = fg.Var(fresh(rng, used), "string", vartype=21, **extra)
         else:
             w = rng.choice([1, 1, 2, 3, 4, 7, 8, 9, 13, 16, 32, 33, 64, 70])
@@ -321,6 +332,8 @@ def rand_ghw(rng):
             rg = rng.choice([(lo + w - 1, lo), (lo, lo + w - 1)])
             kind = "logic" if rng.random() < 0.7 else "bit"
             tn = {"logic": rng.choice(["std_logic_vector", "std_ulogic_vector", "my_vec"]), "bit": rng.choice(["bit_vector", "bits_t"])}[kind]
+            if rng.random() < 0.3:
+                extra["subtype_name"] = rng.choice(["word_t", "byte_t", "nibble", "Addr_T"])
             v = fg.Var(name, kind, rng=rg, type_name=tn, **extra)
         elif r < 0.55:
             kind = "logic" if rng.random() < 0.7 else "bit"
